@@ -16,4 +16,6 @@ def obligations(tier):
         obls.append(api_step(1, it, ot, 2, 2))
     obls += [o for o in kern_set(tier) if 'oirtight' not in o.name and 'hiprec' not in o.name]
     obls += [plan_obl(0), plan_obl(1, 0)]      # planner pieces of cr.c (set_dft_length / dft_stage_init / validation prefix)
+    obls.append(init_qq_obl())      # real _soxr_init for the quick recipe: cubic stage inside its envelope
+    obls.append(plan_obl(3))      # the halving loop of _soxr_init terminates for every finite ratio
     return obls
